@@ -19,18 +19,18 @@ import (
 )
 
 type mcCase struct {
-	Kind  string    `json:"kind"` // mc3 | ms2 | bitmap | gen
-	Algo  string    `json:"algo"`
-	N     []int     `json:"n"`
-	Bits  uint64    `json:"bits"`
-	Place int       `json:"place"`
+	Kind  string `json:"kind"` // mc3 | ms2 | bitmap | gen
+	Algo  string `json:"algo"`
+	N     []int  `json:"n"`
+	Bits  uint64 `json:"bits"`
+	Place int    `json:"place"`
 	// Between: what the solid answers away from the lattice points (more than a quarter spacing from the nearest one in
 	// some coordinate). 0: the value of the nearest lattice point; 1: inside; 2: outside; 3: alternating by cell.
 	// The mesher samples lattice points only, so the topology must not depend on it; code that samples anything else
 	// (a cell centre to resolve an ambiguous cell, say) sees all of these.
-	Between int `json:"between,omitempty"`
-	Gen   string    `json:"gen,omitempty"`
-	Args  []float64 `json:"args,omitempty"`
+	Between int       `json:"between,omitempty"`
+	Gen     string    `json:"gen,omitempty"`
+	Args    []float64 `json:"args,omitempty"`
 }
 
 var placements3 = []struct {
@@ -88,8 +88,12 @@ type centred struct {
 	d float64
 }
 
-func (c centred) Min() model3d.Coord3D { return c.Solid.Min().Sub(model3d.XYZ(c.d, c.d, c.d).Scale(0.25)) }
-func (c centred) Max() model3d.Coord3D { return c.Solid.Max().Sub(model3d.XYZ(c.d, c.d, c.d).Scale(0.25)) }
+func (c centred) Min() model3d.Coord3D {
+	return c.Solid.Min().Sub(model3d.XYZ(c.d, c.d, c.d).Scale(0.25))
+}
+func (c centred) Max() model3d.Coord3D {
+	return c.Solid.Max().Sub(model3d.XYZ(c.d, c.d, c.d).Scale(0.25))
+}
 
 func ambiguous3(s *lat.Solid3) bool {
 	// some lattice square (in any axis plane, including the outer layer) has the
